@@ -149,7 +149,8 @@ def gen(rng, tier):
             h = bytearray(root); h[-1] ^= 2
             wrong_in = S.Cal(later, t, bytes(h), list(ext_chain.links))
             yield L("userpub", "fail:771", userpub=up(later, wrong_in.root()), ext=1, rep=R(wrong_in))                   # PUB-03
-            yield L("userpub", "na:publication-not-after-aggregation", userpub=up(t, S.H(1, b"x")), ext=1, rep=R(ext_chain))
+            # (a signature published in its own second carries a record for that very time: then the hashes are compared)
+            yield L("userpub", "fail:772" if (s.pub and s.pub[0] == t) else "na:publication-not-after-aggregation", userpub=up(t, S.H(1, b"x")), ext=1, rep=R(ext_chain))
             yield L("userpub", "na:publication-not-after-aggregation", userpub=up(t - 5, S.H(1, b"x")), ext=1, rep=R(ext_chain))
             yield L("userpub", "na:no-user-publication", ext=1, rep=R(ext_chain))
             yield L("userpub", "na:extender-status", userpub=good_up, ext=1, rep=R(ext_chain, status=0x104))
